@@ -1,9 +1,18 @@
+mod cmd_lin;
 mod cmd_backend;
 mod cmd_stages;
 mod cmd_fun2core;
 mod cmd_subst;
+mod cmd_rt;
 mod consts;
 mod pipe;
+mod cmd_genfun;
+mod gen_fun;
+mod gen_fun_ast;
+mod gen_fun_check;
+mod gen_fun_eval;
+mod gen_fun_mutate;
+mod gen_fun_reduce;
 mod rec;
 mod rng;
 mod sexp;
@@ -63,6 +72,14 @@ fn main() {
     if args.len() < 2 { eprintln!("usage: harness <cmd> ..."); std::process::exit(2); }
     let arg = |i: usize| -> &str { args.get(i).map(|s| s.as_str()).unwrap_or("") };
     let num = |i: usize, d: u64| -> u64 { args.get(i).and_then(|s| s.parse().ok()).unwrap_or(d) };
+    // commands whose 4th argument is not an output file
+    match arg(1) {
+        "genfun" => { cmd_genfun::cmd_genfun(num(2, 1), num(3, 10) as usize, if arg(4).is_empty() { "genfun-out" } else { arg(4) }, args.get(5..).unwrap_or(&[])); return; }
+        "genfun-reduce" => { cmd_genfun::cmd_reduce(num(2, 1), num(3, 0) as usize, arg(4), arg(5), args.get(6..).unwrap_or(&[])); return; }
+        "genfun-mutants" => { cmd_genfun::cmd_mutants(num(2, 1), num(3, 100) as usize, args.get(4..).unwrap_or(&[])); return; }
+        "genfun-stats" => { cmd_genfun::cmd_stats(num(2, 1), num(3, 100) as usize, args.get(4..).unwrap_or(&[])); return; }
+        _ => {}
+    }
     let mut out: Box<dyn std::io::Write> = match args.get(4) {
         Some(p) if p != "-" => Box::new(std::io::BufWriter::new(std::fs::File::create(p).expect("create out"))),
         _ => Box::new(std::io::BufWriter::new(std::io::stdout())),
@@ -73,10 +90,14 @@ fn main() {
             let which = &arg(1)[8..];
             cmd_backend::cmd_codegen(which, num(2, 1), num(3, 0) as usize, &mut *out, &args[5.min(args.len())..]);
         }
+        "c10-x86" => cmd_backend::cmd_c10("x86", num(2, 1), num(3, 0) as usize, &mut *out, &args[5.min(args.len())..]),
         "pm" => cmd_pm(num(2, 1), num(3, 100) as usize, &mut *out),
+        "lin-show" => { cmd_lin::cmd_lin_show(num(2, 1)); return; }
+        "lin" => cmd_lin::cmd_lin(num(2, 1), num(3, 100) as usize, &mut *out, args.get(5..).unwrap_or(&[])),
         "stages" => cmd_stages::cmd_stages(num(2, 1), num(3, 0) as usize, args.get(5..).unwrap_or(&[]), &mut *out),
         "fun2core" => cmd_fun2core::cmd_fun2core(num(2, 1), num(3, 0) as usize, args.get(5..).unwrap_or(&[]), &mut *out),
         "subst" => cmd_subst::cmd_subst(num(2, 1), num(3, 0) as usize, &mut *out, args.get(5..).unwrap_or(&[])),
+        "rt" => cmd_rt::cmd_rt(num(2, 1), num(3, 100) as usize, &mut *out),
         c => { eprintln!("unknown command {c}"); std::process::exit(2); }
     }
     out.flush().unwrap();
